@@ -13,5 +13,6 @@ CONSTANTS
   ExportMode = "focus"
   SampleMod = 9973
   SampleRes = 0
+  NearMod = 1
 INVARIANTS ForAllManifests
 CHECK_DEADLOCK FALSE
